@@ -553,6 +553,9 @@ def check_C04(tier, seed):
     n, k = sizes(tier, (60, 4), (700, 5))
     progs = F.random_general(seed, n, 100, k=k, nsets=(1, 1, 2), nrules=(2, 3, 3, 4), p_ctx=0.55,
                              p_eoi=0.15, menu_sizes=(1,), p_fal=0.0, p_sugar=0.2, allow_switch=False)
+    # context-guarded class rules in front of per-character rules that leave the same state
+    # (seed S-F14: characters grouped into one arm keep only the first character's fallback chain)
+    progs += F.arm_family(seed + 3, sizes(tier, 50, 400), 20000, k=3, p_ctx=0.45, p_bare=0.6)
     for p in progs:
         for r in p.rules():
             if r["kind"] == "inf":
@@ -561,7 +564,9 @@ def check_C04(tier, seed):
         "C04", tier, progs, proj_c04,
         "a rule with a right context matched/was skipped wrongly, or the context was consumed",
         "programs: seeded random definitions in which about half of the rules carry a right context "
-        "(literals, sets, repetition, `$`, nullable contexts) in any priority position; "
+        "(literals, sets, repetition, `$`, nullable contexts) in any priority position, plus "
+        "families.arm_family with contexts (context-guarded class rules in front of overlapping "
+        "per-character / range / `_` rules that leave the same state); "
         + INPUTS_RULE + "compared: (rule, lexeme span, next character seen by the action) of every "
         "action and token up to the first InvalidToken",
         artifact="a right-context automaton or a context-guarded accepting state is wrong")
@@ -2312,6 +2317,10 @@ def check_C02(tier, seed):
     # larger random ones: overlapping ranges, `_` mixed with ranges and literals, nested repetition
     big = F.random_general(seed, sizes(tier, 150, 1200), 200000, k=3, nsets=(1, 1, 2), nrules=(1, 2, 3),
                            depth=4, p_ctx=0.15, p_eoi=0.15, p_var=0.3, menu_sizes=(1,))
+    # the same with multi-byte letters (strings ending in a non-ASCII character, seed S-F16)
+    big += F.random_general(seed + 9, sizes(tier, 60, 400), 250000, k=3, nsets=(1, 1, 2), nrules=(1, 2, 3),
+                            depth=3, p_var=0.2, menu_sizes=(1,), letters=(97, 233, 0x65E5),
+                            sigma=(97, 233, 0x65E5, 0x1F600))
     classes = class_family(seed, sizes(tier, 120, 600), 300000)
     # two rules whose leading ranges overlap in every possible way (the subset construction
     # merges their range transitions; the later rule must not disturb the earlier one)
@@ -2372,7 +2381,8 @@ def check_C02(tier, seed):
     if not orc.ok:
         raise ToolError("the reference specification is inconsistent (declarative vs derivative): " + str(orc.error))
     # a sample compiled for real and run on all inputs
-    run_sample = rnd.sample(progs, min(len(progs), sizes(tier, 100, 600))) + big[:sizes(tier, 30, 300)] + arms
+    run_sample = (rnd.sample(progs, min(len(progs), sizes(tier, 100, 600))) + big[:sizes(tier, 30, 300)]
+                  + [p for p in big if p.id >= 250000][:sizes(tier, 30, 200)] + arms)
     fr = replay_family("C02", run_sample, workers=8, tlc_timeout=900)
     rb = {p.id: p for p in run_sample}
     other = replay_violations(out, fr, lambda evs: proj_tokens(evs, stop_at_invalid=False), rb,
